@@ -573,7 +573,7 @@ pub struct EdgeLit {
 }
 
 fn edge_strategy() -> impl Strategy<Value = EdgeLit> {
-    (0u8..5, 1600i32..2400, 1u32..=12, 1u32..=28, 0u32..24, 0u32..60, 1u32..=52, 24u32..100, 0u32..60, any::<bool>(), any::<bool>()).prop_map(
+    (0u8..8, 1600i32..2400, 1u32..=12, 1u32..=28, 0u32..24, 0u32..60, 1u32..=52, 24u32..100, 0u32..60, any::<bool>(), any::<bool>()).prop_map(
         |(kind, y, mo, d, h, mi, ww, off_h, off_m, with_time, neg)| EdgeLit { kind, y, mo, d, h, mi, ww, off_h, off_m, with_time, neg },
     )
 }
@@ -585,7 +585,23 @@ pub fn edge_literal(c: &EdgeLit) -> (String, Vec<i128>) {
     let tod = |h: u32, mi: u32| (h as i128 * 60 + mi as i128) * MIN;
     let sign: i128 = if c.neg { -1 } else { 1 };
     let sg = if c.neg { "-" } else { "+" };
-    match c.kind % 5 {
+    match c.kind % 8 {
+        5 => {
+            // second 60: the second after :59
+            let local = days_from_civil(c.y as i64, c.mo, c.d) as i128 * DAY + tod(c.h, c.mi) + 60_000_000_000;
+            (format!("{:04}-{:02}-{:02} {:02}:{:02}:60", c.y, c.mo, c.d, c.h, c.mi), vec![local])
+        }
+        6 => {
+            // arithmetic on such a literal: (d + 1 s) - d, answered in seconds (not an instant)
+            let l = format!("{:04}-{:02}-{:02} {:02}:{:02}:60", c.y, c.mo, c.d, c.h, c.mi);
+            (format!("{}# + {} s) - #{}", l, 1 + c.off_m, l), vec![(1 + c.off_m as i128) * 1_000_000_000])
+        }
+        7 => {
+            // month name and day, no year, with a time: `monthname day[[','] year][ hour24:min...]`
+            let day = days_from_civil(2016, c.mo, c.d) as i128 * DAY;
+            // (the comma of the pattern belongs to the optional year, so none is written here)
+            (format!("{} {} {:02}:{:02}", if c.neg { MON3[c.mo as usize - 1] } else { MONTHS[c.mo as usize - 1] }, c.d, c.h, c.mi), vec![day + tod(c.h, c.mi)])
+        }
         0 => {
             // ISO week: the week's Monday (week 1 is the one with 4 January in it)
             let jan4 = days_from_civil(c.y as i64, 1, 4);
@@ -634,13 +650,53 @@ pub fn edge_literal(c: &EdgeLit) -> (String, Vec<i128>) {
 
 pub fn check_edge(env: &Env, c: &EdgeLit, st: &mut Stats) -> CaseResult {
     let (lit, accepted) = edge_literal(c);
-    let text = format!("#{}#", lit);
+    let kind = c.kind % 8;
+    let text = if kind == 6 { format!("(#{}#", lit) } else { format!("#{}#", lit) };
     st.eval();
-    st.class(["edge_iso_week", "edge_month_day_without_year", "edge_literal_offset_24h_or_more", "edge_minute_60", "edge_compact_offset_minutes_60_99"][(c.kind % 5) as usize]);
+    st.class(
+        [
+            "edge_iso_week",
+            "edge_month_day_without_year",
+            "edge_literal_offset_24h_or_more",
+            "edge_minute_60",
+            "edge_compact_offset_minutes_60_99",
+            "edge_second_60",
+            "edge_second_60_arithmetic",
+            "edge_month_name_without_year_with_time",
+        ][kind as usize],
+    );
     st.nontrivial(&text);
+    if kind == 6 {
+        // (d + t) - d = t, a number of seconds
+        return match rinkx::eval_line(&env.ctx, &text) {
+            Out::Panic(p) => fail(env, st, &panic_signature(&p), &text, format!("panicked: {}", p)),
+            Out::Error(_) => {
+                st.class("edge_refused");
+                Ok(())
+            }
+            Out::Reply(r @ QueryReply::Number(_)) | Out::Reply(r @ QueryReply::Duration(_)) => {
+                let raw = match &r {
+                    QueryReply::Number(p) => p.raw_value.clone(),
+                    QueryReply::Duration(d) => d.raw.raw_value.clone(),
+                    _ => None,
+                };
+                let got = raw.as_ref().and_then(|r| rinkx::rational_of(&r.value)).map(|(a, b)| Q::new(a, b));
+                let want = Q::new(BigInt::from(accepted[0] as i64), BigInt::from(1_000_000_000i64));
+                match got {
+                    Some(g) if g.eq_val(&want) => Ok(()),
+                    other => fail(env, st, "add-then-subtract-drift", &text, format!("(d + t) - d = {:?} s, t = {} s", other.map(|q| q.to_string()), want.to_string())),
+                }
+            }
+            other => fail(env, st, "literal-edge-other-reply", &text, other.describe()),
+        };
+    }
     match rinkx::eval_line(&env.ctx, &text) {
         Out::Panic(p) => fail(env, st, &panic_signature(&p), &text, format!("panicked: {}", p)),
-        Out::Error(_) => {
+        Out::Error(e) => {
+            if kind == 7 {
+                // a literal that follows a documented pattern and has every field in range
+                return fail(env, st, "documented-pattern-refused", &text, format!("{}", e));
+            }
             st.class("edge_refused");
             Ok(())
         }
